@@ -40,6 +40,7 @@ def tasks(tier):
         ("condensed vs three-field (axisymmetric)", "run_condensed", dict(kind="Axisymmetric")),
         ("condensed update", "run_update", {}),
         ("uniform region", "run_uniform", {}),
+        ("dual regions of mixed fields", "run_dual_table", {}),
     ]
 
 
@@ -223,3 +224,59 @@ def run_uniform(col):
         finish_info(col, it)
     bad = diff_dense(res[True][0], res[False][0]) + diff_dense(res[True][1], res[False][1])
     col.add("C10.O4", "uniform vs general region", "on a grid of identical cells at the undeformed state the uniform path (first cell evaluated, values broadcast) assembles the same vector and matrix", not bad, "; ".join(bad))
+
+
+# The pairing (region -> region of the dual fields) that FieldsMixed / FieldDual use to build the explicit (u, p, J) formulation.  It is a design
+# table without a second source in the library; following the guidance for inferred rule instances it is confirmed by reading and frozen here,
+# one line of reason per entry.  The equality with the condensed nearly-incompressible body (one constant p, J per cell) is a statement about
+# the families whose dual region is cell-wise constant.
+DUAL_TABLE = {
+    "RegionHexahedron": ("RegionConstantHexahedron", 1, "Q1/P0: one constant p, J per cell (the formulation the condensed body is compared with)"),
+    "RegionQuad": ("RegionConstantQuad", 1, "Q1/P0, plane and axisymmetric"),
+    "RegionQuadraticQuad": ("RegionConstantQuad", 1, "serendipity Q2/P0: constant per cell"),
+    "RegionBiQuadraticQuad": ("RegionQuad", 4, "Q2/P1 (discontinuous bilinear): four dual points per cell"),
+    "RegionQuadraticHexahedron": ("RegionConstantHexahedron", 1, "serendipity Q2/P0: constant per cell"),
+    "RegionTriQuadraticHexahedron": ("RegionHexahedron", 8, "Q2/P1 (discontinuous trilinear): eight dual points per cell"),
+    "RegionQuadraticTetra": ("RegionTetra", 4, "Taylor-Hood P2/P1, continuous (disconnect=False)"),
+    "RegionQuadraticTriangle": ("RegionTriangle", 3, "Taylor-Hood P2/P1, continuous (disconnect=False)"),
+    "RegionTetraMINI": ("RegionTetra", 4, "MINI: linear continuous pressure"),
+    "RegionTriangleMINI": ("RegionTriangle", 3, "MINI: linear continuous pressure"),
+    "RegionLagrange": ("RegionLagrange", None, "one order lower (order - 1), points per cell order**dim"),
+}
+CONTINUOUS = {"RegionQuadraticTetra", "RegionQuadraticTriangle", "RegionTetraMINI", "RegionTriangleMINI"}
+
+
+def run_dual_table(col):
+    import ast
+    import os
+    from ..common import SRC
+
+    path = os.path.join(SRC, "felupe", "field", "_dual.py")
+    tree = ast.parse(open(path).read())
+    tabs = {}
+    for node in ast.walk(tree):
+        if isinstance(node, ast.Assign) and len(node.targets) == 1 and isinstance(node.targets[0], ast.Name) and isinstance(node.value, ast.Dict):
+            tabs[node.targets[0].id] = node.value
+        if isinstance(node, ast.Assign) and isinstance(node.value, ast.Subscript) and isinstance(node.value.value, ast.Dict) and isinstance(node.targets[0], ast.Name):
+            tabs[node.targets[0].id] = node.value.value
+    need = [k for k in ("region_dual_dict", "points_per_cell", "mesh_kwargs") if k not in tabs]
+    if need:
+        col.undecided("C10.O4", "field/_dual.py FieldDual.__init__", "anchor", "tables %s not found" % need)
+        return
+
+    def name(n):
+        return n.id if isinstance(n, ast.Name) else ast.unparse(n)
+
+    dual = {name(k): name(v) for k, v in zip(tabs["region_dual_dict"].keys, tabs["region_dual_dict"].values)}
+    ppc = {name(k): (v.value if isinstance(v, ast.Constant) else None) for k, v in zip(tabs["points_per_cell"].keys, tabs["points_per_cell"].values)}
+    mk = {name(k): ast.unparse(v) for k, v in zip(tabs["mesh_kwargs"].keys, tabs["mesh_kwargs"].values)}
+    col.info["dual_regions"] = dual
+    col.add("C10.O4", "FieldDual region table keys", "the table lists exactly the region families confirmed by reading", sorted(dual) == sorted(DUAL_TABLE), "field/_dual.py: %s" % sorted(set(dual) ^ set(DUAL_TABLE)))
+    for reg, (want, npts, why) in DUAL_TABLE.items():
+        got = dual.get(reg)
+        gpp = ppc.get(got)
+        cont = "False" in mk.get(reg, "")
+        okk = got == want and (npts is None or gpp == npts) and cont == (reg in CONTINUOUS)
+        col.add("C10.O4", "FieldDual dual region of %s" % reg, "the dual (p, J) fields of a mixed container live on %s with %s point(s) per cell [%s]; connected dual mesh only for the Taylor-Hood / MINI families" % (want, npts, why),
+                okk, "field/_dual.py FieldDual.__init__: %s -> %s with %s points per cell, mesh options %s" % (reg, got, gpp, mk.get(reg)))
+    col.info.setdefault("files_consulted", {})[path] = True
